@@ -142,8 +142,8 @@ pub fn entity_headers_strategy() -> BoxedStrategy<Vec<(String, Bs)>> {
 }
 
 pub fn entity_strategy(lens: BoxedStrategy<u64>) -> BoxedStrategy<EntitySpec> {
-    (lens, etag_strategy(), mtime_strategy(), entity_headers_strategy(), plan_strategy(), prop_oneof![3 => Just(0u8), 1 => Just(2u8), 1 => Just(3u8)])
-        .prop_map(|(len, etag, mtime, headers, plan, segments)| EntitySpec {
+    (lens, etag_strategy(), mtime_strategy(), entity_headers_strategy(), plan_strategy(), prop_oneof![3 => Just(0u8), 1 => Just(2u8), 1 => Just(3u8)], proptest::bool::weighted(0.25))
+        .prop_map(|(len, etag, mtime, headers, plan, segments, counting_hint)| EntitySpec {
             len,
             etag,
             mtime,
@@ -152,6 +152,8 @@ pub fn entity_strategy(lens: BoxedStrategy<u64>) -> BoxedStrategy<EntitySpec> {
             faults: vec![],
             tail: vec![],
             segments,
+            counting_hint,
+            unfused_errors: false,
         })
         .boxed()
 }
@@ -512,6 +514,8 @@ pub fn stable_case_strategy(lens: BoxedStrategy<u64>, p: Profile) -> BoxedStrate
             faults: vec![],
             tail: vec![],
             segments,
+            counting_hint: false,
+            unfused_errors: false,
         })
         .prop_flat_map(move |e| {
             let r = request_strategy(&e, p);
